@@ -282,6 +282,14 @@ def run_nrt_case(c):
         score = main.process(num(c['tail']))
         res = {'list': canon(score.list), 'raw': bytes(score.raw).hex(),
                'end': fr(main.main_tt._m_seconds), 'duration': fr(score.duration)}
+        # the score file: written twice to a path that earlier scores of this process used too
+        try:
+            score.write('score.osc')
+            score.write('score.osc')
+            with open('score.osc', 'rb') as f:
+                res['file'] = f.read().hex()
+        except Exception as e:
+            res['file'] = 'EXC:' + type(e).__name__
     except Exception as e:
         res = {'exc': type(e).__name__ + ':' + str(e)[:200]}
     res['sends'] = [r for r in log if 'seg' not in r]
